@@ -124,10 +124,31 @@ def f_list(eng, s, args, kw, kind="list"):
         if z3.is_int_value(n):
             items = [materialise(eng, s, x.at(s, z3.IntVal(j))) for j in range(n.as_long())]
             return [(eng.new_list_of(s, items, kind), s)]
-        raise Unsupported("list() of pair view of symbolic length")
+        return [(materialise_view(eng, s, x, kind), s)]
     seq = eng.seq_of(s, x)
     s.assume(seq.n >= 0)
     return [(eng.new_list(s, seq.n, seq.arr, kind, seq.elem_ty), s)]
+
+
+def materialise_view(eng, s, view, kind="list"):
+    """list(enumerate(..)) / list(d.items()) of symbolic length: n new 2-tuples in one allocation block"""
+    n = view.n
+    base = s.heap.alloc
+    tref = z3.Function(smt.fresh_name("pair_tuple"), smt.I, smt.I)
+    i = z3.Int("mv_i")
+    h = s.heap.copy()
+    h.alloc = fresh("mv_alloc", smt.I)
+    s.heap = h
+    probe = view.at(s, i)
+    a_t, b_t = materialise(eng, s, probe.a).t, materialise(eng, s, probe.b).t
+    s.assume(n >= 0, h.alloc == base + n,
+             z3.ForAll([i], z3.Implies(z3.And(0 <= i, i < n),
+                                       z3.And(tref(i) == base + i, TYP(tref(i)) == class_id("tuple"), h.llen(tref(i)) == 2,
+                                              h.lget(tref(i), 0) == a_t, h.lget(tref(i), 1) == b_t)),
+                       patterns=[tref(i)]))
+    arr = fresh("mv_arr", smt.ArrIV)
+    s.assume(z3.ForAll([i], z3.Implies(z3.And(0 <= i, i < n), z3.Select(arr, i) == VRef(tref(i))), patterns=[z3.Select(arr, i)]))
+    return eng.new_list(s, n, arr, kind, "tuple")
 
 
 def f_tuple(eng, s, args, kw):
